@@ -184,7 +184,7 @@ impl Exec {
                 self.slots.insert(op["slot"].as_str().unwrap_or("a").to_string(), b);
                 vec![op.clone()]
             }
-            "hash_wf" | "note" => vec![op.clone()],
+            "hash_wf" | "note" | "abi_const" | "abi_struct" | "to_str" | "to_string" => vec![op.clone()],
             "read_int" => vec![self.read_int(op)],
             "parse_at" => vec![self.parse_at(op)],
             "tbl" => self.tbl(op),
